@@ -109,9 +109,19 @@ def c_hash(tbl):
     return "(hash_of %s)" % c_list("(%s,%d)" % (c_skey(k), h) for k, h in tbl)
 
 
-def model_expr(case, hashes, fn="run_dump"):
-    return "%s %s %s (actor_init %d) %s" % (fn, c_cfg(case["cfg"]), c_hash(hashes), case["cfg"]["t0"],
-                                             c_list(c_op(o) for o in case["ops"]))
+def model_expr(case, hashes, fn="run_dump", steps=None):
+    """[steps]: the implementation's results; needed only when the case has a small per-round budget
+    (cfg n < 10000): the model's budgeted time check takes the iteration order of service_map, which is
+    read from the state dumped before the tick"""
+    n = case["cfg"].get("n", 10000)
+    ops = []
+    for ix, o in enumerate(case["ops"]):
+        if o[0] == "check" and n < 10000:
+            order = steps[ix - 1]["st"]["order"] if (steps and ix > 0) else []
+            ops.append("OpTimeCheckB %d %s" % (n, c_list(c_skey(k) for k in order)))
+        else:
+            ops.append(c_op(o))
+    return "%s %s %s (actor_init %d) %s" % (fn, c_cfg(case["cfg"]), c_hash(hashes), case["cfg"]["t0"], c_list(ops))
 
 
 # ------------------------------------------------------------------ canonical forms
@@ -163,6 +173,7 @@ def canon_model_state(d):
 
 def canon_impl_state(st):
     s = json.loads(json.dumps(st))
+    s.pop("order", None)
     for sv in s["services"]:
         sv["hset"] = sorted(sv["hset"])
         sv["uset"] = sorted(sv["uset"])
@@ -273,7 +284,9 @@ class Gen:
         self.rng = rng
         self.services = services or rng.sample(SERVICE_POOL, rng.choice([1, 2, 2, 3]))
         self.keys = keys or rng.sample(KEY_POOL, rng.choice([2, 3, 3, 4]))
-        self.clients = clients or GRPC_CLIENTS
+        self.clients = list(clients or GRPC_CLIENTS)
+        self.remote = [11, 12]          # gRPC connections of another node (synced instances)
+        self.next_id = 20
 
     def sk(self):
         return list(self.rng.choice(self.services))
@@ -298,7 +311,7 @@ class Gen:
             i = self.http_inst()
         else:
             i = self.grpc_inst()
-            i["cl"] = r.choice([11, 12])       # clients of the other node
+            i["cl"] = r.choice(self.remote)       # clients of the other node
         i["fc"] = r.choice([2, 2, 3])
         i["he"] = r.random() < 0.85
         return i
@@ -328,16 +341,16 @@ class Gen:
         if x < 0.56:
             return ["raftrm", self.sk(), self.key()]
         if x < 0.64:
-            cl = r.choice([0, 0] + self.clients + [11])
+            cl = r.choice([0, 0] + self.clients + self.remote[:1])
             i = mk_inst(self.key(), fg=cl != 0, cl=cl)
             return ["del", self.sk(), i]
         if x < 0.66:
-            return ["delbatch", [[self.sk(), mk_inst(self.key(), fg=True, cl=r.choice(self.clients + [11, 12]), fc=2)]
+            return ["delbatch", [[self.sk(), mk_inst(self.key(), fg=True, cl=r.choice(self.clients + self.remote), fc=2)]
                                  for _ in range(r.randrange(1, 3))]]
         if x < 0.71:
-            return [r.choice(["rmclient", "rmclient", "rmclient_cluster"]), r.choice(self.clients + [11])]
+            return [r.choice(["rmclient", "rmclient", "rmclient_cluster"]), r.choice(self.clients + self.remote[:1])]
         if x < 0.72:
-            return ["rmclients", [r.choice(self.clients + [11, 12]) for _ in range(2)]]
+            return ["rmclients", [r.choice(self.clients + self.remote) for _ in range(2)]]
         if x < 0.80:
             return ["tick", r.choice([1, 50, 100, 150, 299, 300, 301, 599, 600, 601, 1000, 2000])]
         if x < 0.87:
@@ -355,7 +368,7 @@ class Gen:
         if x < 0.965:
             return ["sniff", self.key(), [self.sk() for _ in range(r.randrange(1, 3))], r.random() < 0.5]
         if x < 0.975:
-            cls = r.sample([11, 12] + self.clients, r.randrange(1, 3))
+            cls = r.sample(self.remote + self.clients, r.randrange(1, 3))
             data = []
             for c in cls:
                 ks = []
@@ -387,6 +400,15 @@ class Gen:
         if x < 0.95:
             return ["qsvc", self.sk()]
         return ["qclients"]
+
+    def retire(self, op):
+        """a connection id is not reused after its RemoveClient: replace removed ids by fresh ones"""
+        ids = [op[1]] if op[0] in ("rmclient", "rmclient_cluster") else list(op[1]) if op[0] == "rmclients" else []
+        for c in ids:
+            for pool in (self.clients, self.remote):
+                if c in pool:
+                    pool[pool.index(c)] = self.next_id
+                    self.next_id += 1
 
     def observe_all(self):
         """the observations of the property: per service the full list and the reported counters"""
